@@ -21,4 +21,20 @@ CHECKS = {
                      "envelope content identifiers are digests of the envelope bytes",
                      "the secret store keeps no state outside the datastore handed to its constructor (so a datastore clone is a state clone)"],
     ),
+    "C14": dict(
+        harness="pkg__secretstore", run="TestVerifC14", level="model_checking",
+        technique="explicit-state BFS over the receiver's complete datastore with log-open / push-open / register transitions against a reference model, plus exhaustive bit flips of a push payload in representative states",
+        rule="states = distinct full datastore dumps; every state expanded with log-open(k), push-open(k), register; in every successor every message the reference calls log-openable is probed through the log on a clone; distinct classes = (transition kind, expectation, outcome, error class)",
+        assumptions=["log-open is modelled as OpenEnvelopePayload followed by UpdateOutOfStoreGroupReferences, the two calls MessageStore.processMessage makes",
+                     "windows 1..3, reference windows 1..3 and n<=5 enumerated; defaults (100/100) not enumerated",
+                     "the gRPC wrapper OutOfStoreReceive is a direct call of OpenOutOfStoreMessage and is not driven separately"],
+    ),
+    "C10": dict(
+        harness="pkg__secretstore", run="TestVerifC10", level="fault_enumeration",
+        technique="exhaustive crash-point enumeration: every prefix of the recorded datastore mutation log of each workload (batches atomic / non-batched), restart on the materialised prefix, re-issue and continue",
+        rule="for every workload (receiver scripts x 3 group types, sender script, first-use-of-keys in 10 orders) and every mutation index a fresh store is started on the surviving datastore; thorough additionally takes every mutation of the continuation as a second crash; distinct = (workload, kind of operation interrupted, number of crashes)",
+        assumptions=["a crash loses exactly a suffix of the mutation sequence (no reordering of writes, batches atomic as on badger; the non-batched variant makes every put its own crash point)",
+                     "the interrupted operation is re-issued after restart (as the log replay of the real system does)",
+                     "windows of 2 keys, 3-4 messages per sender"],
+    ),
 }
